@@ -70,13 +70,14 @@ def lagrangeInterpolate (inv : F → F) (points evals : List F) : Option (List F
       List.zipWith (fun f c => f + c * ev) final tmp) (List.replicate n 0)
   some final
 
-/-- `Polynomial<F, LagrangeCoeff>::rotate(Rotation(r))`: `rotate_left(r)` / `rotate_right(-r)`
-(`none` = the std routines panic when the amount exceeds the length). -/
-def polyRotate (values : List F) (r : Int) : Option (List F) :=
-  let k := r.natAbs
-  if k > values.length then none else
-  if r < 0 then some (values.drop (values.length - k) ++ values.take (values.length - k))
-  else some (values.drop k ++ values.take k)
+/-- `Polynomial<F, LagrangeCoeff>::rotate(Rotation(r))`: `rotate_left(r mod len)` /
+`rotate_right(|r| mod len)`. -/
+def polyRotate (values : List F) (r : Int) : List F :=
+  let len := values.length
+  if len = 0 then values else
+  let k := r.natAbs % len
+  if r < 0 then values.drop (len - k) ++ values.take (len - k)
+  else values.drop k ++ values.take k
 
 /-- Field constants `EvaluationDomain::new` reads from `ff::PrimeField` /
 `WithSmallOrderMulGroup<3>`. -/
